@@ -132,7 +132,8 @@ theorem all_mem {p : Entry → Bool} {t : List Entry} (h : t.all p = true) : ∀
 
 /-- the hand-entered textbook rows are internally consistent (Euler, census sums) -/
 theorem textbook_consistent :
-    (Textbook.platonic ++ Textbook.archimedean ++ Textbook.catalan).all Textbook.Solid.consistent = true := by
+    (Textbook.platonic ++ Textbook.archimedean ++ Textbook.catalan ++ Textbook.johnson).all
+      Textbook.Solid.consistent = true := by
   decide +kernel
 
 /-- sizes stated by the property -/
@@ -150,11 +151,12 @@ theorem names_nodup :
         (fun t => namesNodup ((familyOf t).names)) = true := by
   decide +kernel
 
-/-- the tables are exactly the 5 + 13 + 13 textbook solids -/
+/-- the tables are exactly the 5 + 13 + 13 textbook solids and the Johnson numbers J1 … J92 -/
 theorem tables_cover_textbook :
     coversTextbook Textbook.platonic Tables.platonic = true
       ∧ coversTextbook Textbook.archimedean Tables.archimedean = true
-      ∧ coversTextbook Textbook.catalan Tables.catalan = true := by
+      ∧ coversTextbook Textbook.catalan Tables.catalan = true
+      ∧ coversJohnson Tables.johnson = true := by
   decide +kernel
 
 /-- **Platonic.** closed convex surface on its vertices, textbook counts, unit volume, equal edges
@@ -182,11 +184,13 @@ theorem catalan_entries : ∀ e ∈ Tables.catalan,
   have h := all_mem Tables.catalan_ok e he
   simpa only [catalanOk, Bool.and_eq_true, and_assoc] using h
 
-/-- **Johnson.** closed convex surface, equal edges and regular faces -/
-theorem johnson_entries : ∀ e ∈ Tables.johnson, polyhedronOk e = true ∧ regularOk e = true := by
+/-- **Johnson.** closed convex surface, equal edges and regular faces; and the vertex, edge and
+    face counts of the solid with that Johnson number -/
+theorem johnson_entries : ∀ e ∈ Tables.johnson,
+    polyhedronOk e = true ∧ regularOk e = true ∧ johnsonCountsOk e = true := by
   intro e he
   have h := all_mem Tables.johnson_ok e he
-  simpa only [johnsonOk, Bool.and_eq_true] using h
+  simpa only [johnsonOk, Bool.and_eq_true, and_assoc] using h
 
 /-- **prisms/antiprisms, pyramids/dipyramids.** closed convex surface on the entry's vertices -/
 theorem prism_pyramid_entries : ∀ e ∈ Tables.prismAntiprism ++ Tables.pyramidDipyramid,
